@@ -188,13 +188,38 @@ def strip_comments(src):
     return "".join(out)
 
 
+def coq_closure(rel):
+    """Files (relative to coq/) that ``rel`` transitively requires from Verif."""
+    seen, todo = [], [rel]
+    while todo:
+        f = todo.pop()
+        if f in seen or not os.path.exists(os.path.join(COQ, f)):
+            continue
+        seen.append(f)
+        src = strip_comments(open(os.path.join(COQ, f)).read())
+        for m in re.finditer(r"Require\s+(?:Import\s+|Export\s+)?([^\n]*?)\.(?:\s|$)", src):
+            for mod in m.group(1).split():
+                mod = mod[6:] if mod.startswith("Verif.") else mod
+                cand = mod.replace(".", "/") + ".v"
+                if os.path.exists(os.path.join(COQ, cand)):
+                    todo.append(cand)
+    return seen
+
+
 def grep_gate(paths=None):
-    """Reject forbidden vernacular anywhere in the development."""
+    """Reject forbidden vernacular in the given files (default: whole development)."""
     bad = []
+    allv = []
     for d, _, fs in os.walk(COQ):
         for f in fs:
             if f.endswith(".v") or f == "_CoqProject":
-                p = os.path.join(d, f)
+                allv.append(os.path.join(d, f))
+    if paths is not None:
+        allv = [os.path.join(COQ, x) for x in paths] + [os.path.join(COQ, "_CoqProject")]
+    for p in allv:
+        if os.path.exists(p):
+            if True:
+                d, f = os.path.split(p)
                 src = strip_comments(open(p).read())
                 for n, line in enumerate(src.split("\n"), 1):
                     m = GREP_GATE.search(line)
@@ -292,7 +317,7 @@ def coq_props(ctx, pid=None, deps=None, timeout=900):
         "cd /verif/coq && coq_makefile -f _CoqProject -o Makefile && make %s/Props.vo "
         "(coqc 8.16.1, full .vo build; Print Assumptions parsed)" % pid
     )
-    gate = grep_gate()
+    gate = grep_gate(coq_closure(os.path.join(pid, "Props.v")))
     if gate:
         res["failing"] = "grep-gate: " + "; ".join(gate[:5])
         res["log"] = "\n".join(gate)
